@@ -6,7 +6,7 @@ import os
 import struct
 import traceback
 
-from .c18_lib import KIND_OF_MODE, DulExec, GitExec, GitFailed, Scheme, World, empty_report
+from .c18_lib import DulExec, World, empty_report
 
 FIELDS = ("add", "del", "mod", "unstaged", "untracked")
 HEAD_ACTS = {"Checkout", "Switch", "Commit"}
